@@ -816,3 +816,34 @@ func mentionsIdentDeep(x *Exec, e ast.Expr, name string) bool {
 	}
 	return rec(e)
 }
+
+// loopFrameObligations: at a back edge of a loop with an explicit `modifies` list (or `modifies
+// nothing`) everything that existed at the loop head and is not covered by the list must be unchanged
+// by the iteration - otherwise the havoc at the head would be too weak and the invariant proof unsound.
+func (x *Exec) loopFrameObligations(fr *frame, head, back *State, lc *LoopContract, opts *evalOpts, loopName string, edge int) {
+	a := head.clone()
+	b := back.clone()
+	b.names = head.names
+	for _, m := range lc.Modifies {
+		x.havocSame(fr, &a, &b, m, opts)
+	}
+	for o := range head.mem {
+		if o.Kind == "fresh" || o.Kind == "track" || o.Kind == "ghost" {
+			continue
+		}
+		if _, still := back.mem[o]; !still {
+			continue
+		}
+		va := x.contents(&a, o)
+		vb := x.contents(&b, o)
+		if sameValue(va, vb) {
+			continue
+		}
+		eq, ok := valueEq(va, vb)
+		if !ok {
+			bail("loop frame check: object %s changed shape", o.Name)
+		}
+		x.vc.oblige(&Obligation{Name: fmt.Sprintf("%s.frame.%s@%d", loopName, sanitize(o.Name), edge), Kind: "frame", Func: fr.name,
+			Guard: back.reach, Goal: eq, Src: "the iteration changes only the loop's modifies set (object " + o.Name + ")"})
+	}
+}
